@@ -209,6 +209,25 @@ class Ops(Instance):
             ops.append([str(x) if isinstance(x, int) and not isinstance(x, bool) and i_ == len(o) - 1 and o[0] in ("add", "buf", "raw") else x for i_, x in enumerate(o)])
         return "archive_ops", {"ops": ops, "reads": inp.get("reads", [])}
 
+    def amplify(self, viol):
+        """Same kind of history, larger: every registered stream (at least two) gets 24 buffered parts in round-robin order with
+        distinct contents before one flush, then everything is read back sequentially."""
+        names = []
+        for o in viol["inputs"].get("ops", []):
+            if o and o[0] == "reg" and o[1] not in names:
+                names.append(o[1])
+        if not any(o and o[0] == "buf" for o in viol["inputs"].get("ops", [])):
+            return None
+        for extra in ("zz", "yy"):
+            if len(names) < 2 and extra not in names:
+                names.append(extra)
+        ops = [["reg", n] for n in names]
+        for r in range(24):
+            for sid in range(len(names)):
+                ops.append(["buf", sid, [r, sid, 7], str(100 + r * len(names) + sid)])
+        reads = [["seq", sid] for _ in range(25) for sid in range(len(names))]
+        return "archive_ops", {"ops": ops, "reads": reads}
+
     def concrete_cases(self, rnd):
         """Concrete op sequences through the engine and the native build: the written FILE BYTES must be identical."""
         out = []
